@@ -362,6 +362,33 @@ func (t *Transaction) Select(table string, where []ovsdb.Condition, columns []st
 		if err != nil {
 			return ovsdb.ResultFromError(err)
 		}
+		if len(columns) > 0 {
+			// the result holds the requested columns, whatever their value
+			schema := dbModel.Schema.Table(table)
+			selected := ovsdb.Row{}
+			for _, column := range columns {
+				if column == "_uuid" {
+					if uuid, ok := resultRow["_uuid"]; ok {
+						selected["_uuid"] = uuid
+					}
+					continue
+				}
+				columnSchema := schema.Column(column)
+				if columnSchema == nil {
+					return ovsdb.ResultFromError(fmt.Errorf("select: unknown column %s in table %s", column, table))
+				}
+				native, err := info.FieldByColumn(column)
+				if err != nil {
+					return ovsdb.ResultFromError(err)
+				}
+				value, err := ovsdb.NativeToOvs(columnSchema, native)
+				if err != nil {
+					return ovsdb.ResultFromError(err)
+				}
+				selected[column] = value
+			}
+			resultRow = selected
+		}
 		results = append(results, resultRow)
 	}
 	return ovsdb.OperationResult{
